@@ -198,6 +198,13 @@ RULES = [
     ("C02-R5", "each column yields the documented kind of value", r5),
     ("C02-R6", "boolean literal table", r6),
     ("C02-R7", "operands evaluated on the same entry; table chosen by the column's type", r7),
+    # clauses of C02 that are decided by rules shared with other properties
+    ("C13-R1", "date columns: comparison arms on all orderings of (t, a, b) [shared with C13]", lambda ctx: __import__("c13").r1(ctx)),
+    ("C14-R1", "size-unit literals: unit table of parse_filesize [shared with C14]", lambda ctx: __import__("c14").r1(ctx)),
+    ("C14-R3", "numeric literal coercion falls back to parse_filesize [shared with C14]", lambda ctx: __import__("c14").r3(ctx)),
+    ("C12-R1", "text columns: glob / LIKE escape tables [shared with C12]", lambda ctx: __import__("c12").r1(ctx)),
+    ("C12-R3", "text columns: negative operators are complements [shared with C12]", lambda ctx: __import__("c12").r3(ctx)),
+    ("C12-R4", "text columns: operator -> translator dispatch [shared with C12]", lambda ctx: __import__("c12").r4(ctx)),
 ]
 
 EXPLANATION = (
